@@ -87,6 +87,9 @@ def gen_layout(ch, label, kind, name, desc, rich):
     coll = _colliding(desc, name)
     bound0 = name.split(".")[0]
     before = render.unrelated_statements(ch, label + "b", coll, k_before, local_name=bound0)
+    if "." in name and kind == "class" and ch.chance(label + ".simple", 0.4):
+        # a module-level class that bears the *simple* name of the nested target (Config next to Model.Config)
+        before = [{"kind": "same_simple_name_class", "src": "class %s(object):\n    legacy: int = 1\n\n    def load(self):\n        return self.legacy" % name.split(".")[-1]}] + before
     # statements after the definition may re-bind or use the name it binds (a decorator applied by hand, an alias)
     bound = name.split(".")[0]
     after = render.unrelated_statements(ch, label + "a", coll, k_after, after_def=bound if rich or ch.chance(label + ".rb", 0.5) else None, local_name=bound)
@@ -120,6 +123,7 @@ def gen_style(ch, label, body_p=0.3):
                                             ["count: int", "count = 1", "print(count)"]])
     st = {"inline_types": ch.chance(label + ".inline", 0.7), "kwonly": ch.chance(label + ".kwonly", 0.2),
           "default_doc": ch.chance(label + ".ddoc", 0.3), "body": body, "plain_attrs": ch.chance(label + ".plain", 0.2),
+          "absent_keeps_class": ch.chance(label + ".keepcls", 0.7),
           "bare_argparse": ch.weighted(label + ".bare", [(None, 8), ("no_docstring", 1), ("no_description", 1)]),
           # decorators on the synchronised definition itself (bare names, dotted names, calls)
           "decorators": ch.weighted(label + ".deco", [(None, 9), (["@functools.lru_cache(maxsize=None)"], 1), (["@abc.abstractmethod", "@log_calls"], 0.7)])}
@@ -176,6 +180,14 @@ class Project(object):
         return self.cur
 
 
+def _truth_first(op):
+    """Undo op["truth_pos"]: list the truth first again (what the command line requires)."""
+    if op.pop("truth_pos", None):
+        files = op["targets"][op["truth"]]["files"]
+        op["targets"][op["truth"]]["files"] = files[1:2] + files[:1] + files[2:]
+    return op
+
+
 def sync_op(proj, ch, label, truth=None, kinds=None, via=None, avoid_known=True):
     truth = truth or ch.choice(label + ".truth", KINDS)
     if kinds is None:
@@ -193,7 +205,13 @@ def sync_op(proj, ch, label, truth=None, kinds=None, via=None, avoid_known=True)
     # to change (R2 has no opinion then), but what sync reports about it must still be true (R1)
     if getattr(proj, "shared_truth", False) and truth == "function" and "class" in targets and "." not in proj.names["function"]:
         targets["class"]["files"] = targets["class"]["files"] + [proj.by_kind["function"][0]]
-    return {"op": "sync", "truth": truth, "via": via or ch.weighted(label + ".via", [("cli", 0.6), ("api", 0.4)]), "targets": targets}
+    op = {"op": "sync", "truth": truth, "via": via or ch.weighted(label + ".via", [("cli", 0.6), ("api", 0.4)]), "targets": targets}
+    if op["via"] == "api" and len(targets[truth]["files"]) > 1 and ch.chance(label + ".truthpos", 0.4):
+        # ground_truth(args, truth_file): the truth is identified by its path, wherever it stands in the list of its kind
+        files = targets[truth]["files"]
+        targets[truth]["files"] = files[1:2] + files[:1] + files[2:]
+        op["truth_pos"] = 1
+    return op
 
 
 FAULT_KINDS = ("IOERR", "INTERRUPT", "ALLOC", "KILL", "CONVERT")
@@ -213,7 +231,7 @@ def gen_fault(ch, label, enabled=FAULT_KINDS):
             f["persist"] = True  # the condition stays (disk full / read-only): later writes of the same operation fail too
         elif kind in ("INTERRUPT", "ALLOC", "IOERR", "CONVERT") and ch.chance(label + ".then", 0.2):
             # a fault sequence: a second fault at whatever is written after the first one (by an error handler, a retry)
-            f["then"] = ch.choice(label + ".thenv", [{"kind": "IOERR", "errno": "EIO", "cut": 0.5}, {"kind": "IOERR", "errno": "ENOSPC", "cut": 0}, {"kind": "INTERRUPT"}])
+            f["then"] = ch.choice(label + ".thenv", [{"kind": "IOERR", "errno": "EIO", "cut": 0.5}, {"kind": "IOERR", "errno": "ENOSPC", "cut": 0}, {"kind": "INTERRUPT"}, {"kind": "IOERR", "errno": "EACCES", "at": "open"}])
     else:
         f = {"where": "step", "kind": kind if kind not in ("IOERR", "CONVERT") else "INTERRUPT",
              "pick": ch.choice(label + ".spick", ["near_io", None]), "frac": round(ch.rng.random(), 3),
@@ -304,10 +322,11 @@ def gen_scenario(seed, focus="C20"):
             op = copy.deepcopy(last_sync)
             if ch.chance(lab + ".flipvia", 0.3):
                 # the same invocation through the other route: a command-line run is a new process, an API call is not
+                _truth_first(op)
                 op["via"] = "api" if op.get("via") == "cli" else "cli"
         elif what == "alternate":
             others = [k for k in last_sync["targets"] if k != last_sync["truth"]]
-            op = copy.deepcopy(last_sync)
+            op = _truth_first(copy.deepcopy(last_sync))
             op["truth"] = ch.choice(lab + ".alt", others)
             truth = op["truth"]
             if truth != "argparse_function" and "function" in op["targets"]:
@@ -396,6 +415,12 @@ def source_fn({farg}: {ftyp}, other: int = 2, *, {kwarg}: {kwtyp} = {kwdef}):
 '''
 
 SP_OUTPUT = '''from typing import Literal, Optional
+
+async def fetch_remote(session):
+    {oconst}: int = 0
+    {oarg} = await session.get({oconst})
+    return {oarg}
+
 
 {oconst}: int = 1
 keep_me = 42
